@@ -128,6 +128,8 @@ theorem advance_level {sh sh' : Sh} {o : Addr} {pc pc' : PC} (h : advance sh o p
       · cases h
       · simp only [Option.some.injEq, Prod.mk.injEq] at h; obtain ⟨rfl, rfl⟩ := h; rfl
     · split at h
+      · cases h
+      split at h
       · simp only [Option.some.injEq, Prod.mk.injEq] at h; obtain ⟨rfl, rfl⟩ := h; rfl
       · split at h
         · cases h
